@@ -26,13 +26,13 @@ def parse_obs(obs):
 class C29(Check):
     id = "C29"
     prop_file = "theories/Properties/Properties_C29.v"
-    theorems = ("C29_base_value_written_once", "C29_base_readers_get_the_value", "C29_base_one_winner_one_callback",
-                "C29_base_callback_exactly_once", "C29_base_null_set_refuted",
+    theorems = ("C29_base_value_written_once", "C29_base_readers_get_the_value", "C29_base_later_reader_same_value",
+                "C29_base_one_winner_one_callback", "C29_base_callback_exactly_once", "C29_base_null_set_refuted",
                 "C29_countable_ready_exactly_at_count", "C29_countable_callback_once", "C29_countable_set_flags",
-                "C29_countable_zero_count_refuted",
+                "C29_countable_nonpositive_never_ready", "C29_countable_zero_count_refuted",
                 "C29_dc_trigger_at_most_once", "C29_dc_one_fulfilment_per_shape", "C29_dc_lock_mutex",
-                "C29_dc_readers_agree", "C29_dc_later_reader_gets_value", "C29_dc_cleanup_exactly_once",
-                "C29_dc_double_set_refuted")
+                "C29_dc_readers_agree", "C29_dc_value_written_once", "C29_dc_root_reader_after_completion",
+                "C29_dc_later_reader_gets_value", "C29_dc_cleanup_exactly_once", "C29_dc_double_set_refuted")
     comp = "future"
     extract_file = "theories/Extract/Extract_Future.v"
     extracted = ("future",)
